@@ -106,7 +106,15 @@ public:
     struct {
         bool connected_okay;
         bool dont_retry;
+        bool forward_completed;
+        bool destinationsFound;
     } flags;
+    // further scalar state of the real class: not read by today's gate functions, left ARBITRARY by the wrappers (they
+    // never assign it), so an edit that makes the gate depend on it is checked for every value instead of failing to compile
+    bool waitingForDispatched;
+    typedef enum { raceImpossible, racePossible, raceHappened } PconnRace;
+    PconnRace pconnRace;
+    const char *storedWholeReply_;
 };
 
 // src/http/StatusLine.h / HttpReply.h: status() returns Http::StatusCode (an enum compared against 400);
